@@ -13,7 +13,8 @@ def main():
     for p in props:
         pid = p["id"]
         path = os.path.join(driver.VERIF, "lib", "props", pid.lower() + ".py")
-        if not os.path.exists(path):
+        ready = set(open(os.path.join(driver.VERIF, "lib", "ready.txt")).read().split())
+        if not os.path.exists(path) or pid not in ready:
             na.append({"property_id": pid, "reason": NOT_BUILT})
             continue
         spec = driver.load_spec(pid).SPEC
